@@ -6,6 +6,7 @@ import numpy as np
 from vlib import probe
 from vlib.probe import COL
 from vlib.props import htmshared as H
+from vlib.refs import sphere as S_
 
 ID = "C12"
 NATIVE = True
@@ -34,7 +35,7 @@ def cases(seed, tier):
     n = 224 if tier == "quick" else 4480
     rng = np.random.default_rng([seed, 12])
     fams = ["uniform", "cap", "northpole", "southpole", "seam", "octant", "duplicates", "perturbed", "tiny-radius", "perturbed",
-            "tiny-radius", "edge-straddle", "repeat-radius", "antipodal"]
+            "tiny-radius", "edge-straddle", "repeat-radius", "antipodal", "corner-tangent"]
     for i in range(n):
         yield {"family": fams[i % len(fams)], "sub": int(rng.integers(0, 2**31))}
 
@@ -201,6 +202,28 @@ def make_sets(rng, fam):
             return ra1, dec1, ra2, dec2, np.array([180.0])
         sd = np.array([float(H.sep_matrix(ra1[i:i + 1], dec1[i:i + 1], ra2[i:i + 1], dec2[i:i + 1])[0, 0]) for i in range(n1)])
         return ra1, dec1, ra2, dec2, np.minimum(sd + rng.choice([-3e-7, 3e-7, -1e-8, 1e-8], size=n1), 180.0)
+    if fam == "corner-tangent":
+        # second set: vertices of the mesh (corners of triangles of level 1-6, hence of every deeper level); first set:
+        # twelve points around each vertex at the search radius plus / minus 1e-8 .. 5e-6 deg.  For the directions that
+        # pass through the leaf triangle the vertex is looked up in, that whole triangle lies inside the search cap
+        # while the vertex itself is just outside / inside the radius: the place where "whole triangle accepted"
+        # short-cuts and padded caps go wrong by less than any random pair would show.
+        rad = float(10 ** rng.uniform(-2, 0.7))
+        nv = int(rng.choice([1, 2, 5]))
+        ra2, dec2 = np.empty(nv), np.empty(nv)
+        for j in range(nv):
+            L = int(rng.integers(1, 7))
+            c = H.triangle_corners(int(rng.integers(8 * 4 ** L, 16 * 4 ** L)), L)[int(rng.integers(0, 3))]
+            lon, lat = S_.lonlat(c[:, None])
+            ra2[j], dec2[j] = float(lon[0]) % 360.0, float(np.clip(lat[0], -90, 90))
+        ndir = 12
+        ra1, dec1 = np.empty(nv * ndir), np.empty(nv * ndir)
+        for j in range(nv):
+            delta = rng.choice([-1.0, 1.0], size=ndir) * 10.0 ** rng.uniform(-8, -5.3, size=ndir)
+            # H.offset draws random directions; twelve of them cover the sectors around the vertex
+            a, b = H.offset(rng, ra2[j], dec2[j], rad + delta, n=ndir)
+            ra1[j * ndir:(j + 1) * ndir], dec1[j * ndir:(j + 1) * ndir] = a, b
+        return ra1, dec1, ra2, dec2, np.array([rad])
     if fam == "uniform":
         ra1, dec1 = H.uniform(rng, n1)
         ra2, dec2 = H.uniform(rng, n2)
